@@ -290,8 +290,10 @@ def cli_property(spec, seed):
         want_src.append((p, v))
     # loads
     want_ld = []
-    for li in range(rng.choice([0, 1, 2])):
-        z = complex(10 + 7 * li, 3 - li)
+    nl_ = rng.choice([0, 1, 2, 2])
+    same_ = rng.random() < 0.5               # two separately defined loads of the same value (one coil in each half of a dipole)
+    for li in range(nl_):
+        z = complex(10, 3) if same_ else complex(10 + 7 * li, 3 - li)
         argv.append('--load=%r' % z)
         named, ldesc = [], []
         for _ in range(rng.choice([1, 2, 3])):
